@@ -7,28 +7,35 @@ open M.Timer
 structure PCase where
   host : String
   kinds : List Kind
+  leg : List Bool        -- mixed host: is timer i a legacy capability timer
   steps : List (Char × Nat)
 
-def parseKinds (s : String) : Option (List Kind) :=
-  s.toList.mapM fun c => if c == 'A' then some Kind.after else if c == 'T' then some Kind.at else none
+def parseKinds (mixed : Bool) (s : String) : Option (List (Bool × Kind)) :=
+  s.toList.mapM fun c =>
+    if c == 'A' then some (false, Kind.after) else if c == 'T' then some (false, Kind.at)
+    else if mixed && c == 'a' then some (true, Kind.after) else if mixed && c == 't' then some (true, Kind.at)
+    else none
 
-def parseStep (n : Nat) (allowed : String) (tok : String) : Option (Char × Nat) :=
+def parseStep (n : Nat) (allowed : Nat → String) (tok : String) : Option (Char × Nat) :=
   match tok.toList with
   | [a, d] =>
-    if allowed.toList.contains a && d.isDigit && d.toNat - 48 < n then some (a, d.toNat - 48) else none
+    if d.isDigit && d.toNat - 48 < n && (allowed (d.toNat - 48)).toList.contains a then some (a, d.toNat - 48) else none
   | _ => none
 
 def parseCase (line : String) : Option PCase :=
   match (line.trimAscii.toString.splitOn " ").filter (· ≠ "") with
   | host :: kinds :: acts => do
-      let ks ← parseKinds kinds
+      let lks ← parseKinds (host == "mixed") kinds
+      let ks := lks.map (·.2)
+      let leg := lks.map (·.1)
       if ks.isEmpty || ks.length > 9 then none
-      let allowed ← match host with
-        | "cmd" | "core" => some "pfwkrchabyx"
-        | "legacy" => some "pfwkrcasS"
+      let allowed : Nat → String ← match host with
+        | "cmd" | "core" => some fun _ => "pfwkrchabyx"
+        | "legacy" => some fun _ => "pfwkrcasS"
+        | "mixed" => some fun i => if leg.getD i false then "pfwkrcasS" else "pfwkrchabyxsS"
         | _ => none
       let steps ← acts.mapM (parseStep ks.length allowed)
-      pure { host := host, kinds := ks, steps := steps }
+      pure { host := host, kinds := ks, leg := leg, steps := steps }
   | _ => none
 
 /-- the counter value the model starts from (the real counter's value is not observable: ids are printed as timer indices) -/
@@ -64,6 +71,13 @@ def toCAct (ts : List Timer) (s : Char × Nat) : CAct :=
     | 'x' => .act .dropClr
     | _ => .poll
 
+def toMAct (c : Char) : MAct :=
+  match c with
+  | 's' => .start | 'S' => .startClear | 'c' => .clear | 'h' => .dropHandle
+  | 'f' => .fire .good | 'w' => .fire .foreignId | 'k' => .fire .otherKind | 'r' => .dropReq
+  | 'a' => .answerClr .good | 'b' => .answerClr .foreignId | 'y' => .answerClr .otherKind | 'x' => .dropClr
+  | _ => .tick
+
 def toLAct (c : Char) : LAct :=
   match c with
   | 's' => .start | 'S' => .startClear | 'c' => .clear
@@ -74,9 +88,12 @@ def toLAct (c : Char) : LAct :=
 inductive TCase where
   | command (host : Host) (timers : List Timer) (steps : List (CAct × Nat))
   | legacy (kinds : List Kind) (steps : List (LAct × Nat))
+  | mixed (kinds : List (Bool × Kind)) (steps : List (MAct × Nat))
 
 def typed (c : PCase) : TCase :=
-  if c.host == "legacy" then
+  if c.host == "mixed" then
+    .mixed (c.leg.zip c.kinds) (c.steps.map (fun s => (toMAct s.1, s.2)) ++ [(.tick, c.kinds.length)])
+  else if c.host == "legacy" then
     .legacy c.kinds (c.steps.map (fun s => (toLAct s.1, s.2)) ++ [(.tick, c.kinds.length)])
   else
     let host := if c.host == "core" then Host.core else Host.cmd
@@ -145,7 +162,24 @@ def cutAfterPanic : List Rec → List Rec
   | [] => []
   | r :: rest => if r.res == .panic then { res := .panic } :: rest.map (fun _ => { res := .dead }) else r :: cutAfterPanic rest
 
+/-- ids in the order the model handed them out (mixed host): per step, the id the addressed position acquired -/
+def mcreated : MWorld → List (MAct × Nat) → List Nat
+  | _, [] => []
+  | w, (a, i) :: rest =>
+    let w' := (mstep w a i).1
+    (match w.idAt i, w'.idAt i with | none, some id => [id] | _, _ => []) ++ mcreated w' rest
+
+def mergeAll (i : Nat) (outs : List Out) : Rec :=
+  { res := match outs[i]? with | some o => o.res | none => .unit
+    effects := outs.flatMap (·.effects)
+    events := (outs.mapIdx fun j o => o.events.map fun e => (j, e)).flatten }
+
 def runTyped : TCase → List (Option Nat) × List Rec
+  | .mixed kinds steps =>
+    let w := mkMWorld baseCounter kinds
+    let wf := mfinal w steps
+    ((List.range kinds.length).map wf.idAt,
+     cutAfterPanic ((steps.zip (mrun w steps)).map fun s => mergeAll s.1.2 s.2))
   | .command host ts steps =>
     let recs := (steps.zip (wrun host ts steps)).map fun s => mergeRec host s.1.1 s.1.2 s.2
     (ts.map (some ·.id), if host == .core then cutAfterPanic recs else recs)
@@ -156,15 +190,23 @@ def runTyped : TCase → List (Option Nat) × List Rec
        { res := s.2.res, effects := s.2.effects, events := s.2.events.map fun e => (s.1.2, e) })
 
 /-- the ids of the case's timers in creation order -/
-def createdIds (ids : List (Option Nat)) : List Nat :=
-  allocIds baseCounter (ids.filter Option.isSome).length
+def createdIds (tc : TCase) (ids : List (Option Nat)) : List Nat :=
+  match tc with
+  | .mixed kinds steps => mcreated (mkMWorld baseCounter kinds) steps
+  | _ => allocIds baseCounter (ids.filter Option.isSome).length
+
+def nodupB : List Nat → Bool
+  | [] => true
+  | a :: rest => !rest.contains a && nodupB rest
 
 def model (line : String) : String :=
   match parseCase line with
   | none => "bad-case"
   | some c =>
-    let (ids, recs) := runTyped (typed c)
-    let cls := if S.Timer.increasing (createdIds ids) then "ids:ok" else "ids:unordered"
+    let tc := typed c
+    let (ids, recs) := runTyped tc
+    let created := createdIds tc ids
+    let cls := if !nodupB created then "ids:dup" else if S.Timer.increasing created then "ids:ok" else "ids:unordered"
     String.intercalate " " (cls :: recs.map (showRec ids))
 
 /-! parsing an observation back -/
@@ -233,6 +275,23 @@ def oracle (line : String) : String :=
           | none => "reject foreign-id"
           | some outs =>
             match S.Timer.verdict host (ts.map fun t => (t.kind, t.id)) steps idsOk outs with
+            | none => "ok"
+            | some key => "reject " ++ key
+      | .mixed kinds steps =>
+        let ids := (List.range kinds.length).map fun j => baseCounter + j
+        match parseObs (ids.map some) o with
+        | none => "reject unparseable-observation"
+        | some (idsOk, recs) =>
+          if recs.length != steps.length then "reject malformed-observation" else
+          let cut := (recs.findIdx (·.res == .panic)) + 1
+          if !((recs.drop cut).all fun r => r.res == .dead && r.effects.isEmpty && r.events.isEmpty) then
+            "reject malformed-observation" else
+          let steps := steps.take cut
+          let recs := recs.take cut
+          match (steps.zip recs).mapM fun s => splitRec ids s.1.2 s.2 with
+          | none => "reject foreign-id"
+          | some outs =>
+            match S.Timer.mverdict true kinds (ids.map some) steps idsOk outs with
             | none => "ok"
             | some key => "reject " ++ key
       | .legacy kinds steps =>
